@@ -78,7 +78,8 @@ Record conf : Type := mkConf {
   pubs : list pub;
   timeouts : nat;                  (* ghost: select() timeouts consumed *)
   crashed : bool;                  (* RuntimeError: deque mutated during iteration *)
-  alloc_log : list (nat * nat * Z) (* ghost: (publisher, message index, mid) in the order _mid_generate returned them *)
+  alloc_log : list (nat * nat * Z);(* ghost: (publisher, message index, mid) in the order _mid_generate returned them *)
+  marked : list pkt                (* ghost: packets reconnect() marked as lost (rc = MQTT_ERR_CONN_LOST, published) *)
 }.
 
 Fixpoint upd {A : Type} (i : nat) (x : A) (l : list A) : list A :=
@@ -90,7 +91,7 @@ Fixpoint upd {A : Type} (i : nat) (x : A) (l : list A) : list A :=
 
 Definition set_pub (c : conf) (i : nat) (p : pub) : conf :=
   mkConf (last_mid c) (mid_lock c) (out_packet c) (qver c) (pipe c) (sock c) (nconn c) (wire c) (loop c)
-         (upd i p (pubs c)) (timeouts c) (crashed c) (alloc_log c).
+         (upd i p (pubs c)) (timeouts c) (crashed c) (alloc_log c) (marked c).
 
 Definition with_pc (p : pub) (k : ppc) : pub :=
   mkPub k (tmp p) (ret p) (idx p) (todo p) (results p) (sentp p).
@@ -108,26 +109,26 @@ Definition pstep (i : nat) (p : pub) (c : conf) : option conf :=
       | Some _ => None
       | None =>
           Some (mkConf (last_mid c) (Some i) (out_packet c) (qver c) (pipe c) (sock c) (nconn c) (wire c) (loop c)
-                       (upd i (with_pc p PRd1) (pubs c)) (timeouts c) (crashed c) (alloc_log c))
+                       (upd i (with_pc p PRd1) (pubs c)) (timeouts c) (crashed c) (alloc_log c) (marked c))
       end
   | PRd1 =>
       Some (set_pub c i (mkPub PWr1 (last_mid c) (ret p) (idx p) (todo p) (results p) (sentp p)))
   | PWr1 =>
       Some (mkConf (tmp p + 1) (mid_lock c) (out_packet c) (qver c) (pipe c) (sock c) (nconn c) (wire c) (loop c)
-                   (upd i (with_pc p PRd2) (pubs c)) (timeouts c) (crashed c) (alloc_log c))
+                   (upd i (with_pc p PRd2) (pubs c)) (timeouts c) (crashed c) (alloc_log c) (marked c))
   | PRd2 =>
       Some (set_pub c i (mkPub (if last_mid c =? 65536 then PWrap else PRd3)
                                (last_mid c) (ret p) (idx p) (todo p) (results p) (sentp p)))
   | PWrap =>
       Some (mkConf 1 (mid_lock c) (out_packet c) (qver c) (pipe c) (sock c) (nconn c) (wire c) (loop c)
-                   (upd i (with_pc p PRd3) (pubs c)) (timeouts c) (crashed c) (alloc_log c))
+                   (upd i (with_pc p PRd3) (pubs c)) (timeouts c) (crashed c) (alloc_log c) (marked c))
   | PRd3 =>
       Some (mkConf (last_mid c) (mid_lock c) (out_packet c) (qver c) (pipe c) (sock c) (nconn c) (wire c) (loop c)
                    (upd i (mkPub PRel (tmp p) (last_mid c) (idx p) (todo p) (results p) (sentp p)) (pubs c))
-                   (timeouts c) (crashed c) (alloc_log c ++ [(i, idx p, last_mid c)]))
+                   (timeouts c) (crashed c) (alloc_log c ++ [(i, idx p, last_mid c)]) (marked c))
   | PRel =>
       Some (mkConf (last_mid c) None (out_packet c) (qver c) (pipe c) (sock c) (nconn c) (wire c) (loop c)
-                   (upd i (with_pc p PSock) (pubs c)) (timeouts c) (crashed c) (alloc_log c))
+                   (upd i (with_pc p PSock) (pubs c)) (timeouts c) (crashed c) (alloc_log c) (marked c))
   | PSock =>
       match sock c with
       | None => Some (set_pub c i (next_msg p false))
@@ -138,10 +139,10 @@ Definition pstep (i : nat) (p : pub) (c : conf) : option conf :=
       Some (mkConf (last_mid c) (mid_lock c) (out_packet c ++ [k]) (S (qver c)) (pipe c) (sock c) (nconn c) (wire c)
                    (loop c)
                    (upd i (mkPub PPipe (tmp p) (ret p) (idx p) (todo p) (results p) (sentp p ++ [k])) (pubs c))
-                   (timeouts c) (crashed c) (alloc_log c))
+                   (timeouts c) (crashed c) (alloc_log c) (marked c))
   | PPipe =>
       Some (mkConf (last_mid c) (mid_lock c) (out_packet c) (qver c) (S (pipe c)) (sock c) (nconn c) (wire c) (loop c)
-                   (upd i (with_pc p PRet) (pubs c)) (timeouts c) (crashed c) (alloc_log c))
+                   (upd i (with_pc p PRet) (pubs c)) (timeouts c) (crashed c) (alloc_log c) (marked c))
   | PRet => Some (set_pub c i (next_msg p true))
   | PDone => None
   end.
@@ -151,7 +152,7 @@ Definition recv_max : nat := Z.to_nat 10000.
 
 Definition set_loop (c : conf) (l : lpc) : conf :=
   mkConf (last_mid c) (mid_lock c) (out_packet c) (qver c) (pipe c) (sock c) (nconn c) (wire c) l
-         (pubs c) (timeouts c) (crashed c) (alloc_log c).
+         (pubs c) (timeouts c) (crashed c) (alloc_log c) (marked c).
 
 Definition is_nil {A : Type} (l : list A) : bool := match l with [] => true | _ => false end.
 
@@ -164,51 +165,54 @@ Definition lstep (c : conf) : option conf :=
       else None                                              (* parked in select() *)
   | LDrain =>
       Some (mkConf (last_mid c) (mid_lock c) (out_packet c) (qver c) (pipe c - Nat.min (pipe c) recv_max)%nat (sock c)
-                   (nconn c) (wire c) LPop (pubs c) (timeouts c) (crashed c) (alloc_log c))
+                   (nconn c) (wire c) LPop (pubs c) (timeouts c) (crashed c) (alloc_log c) (marked c))
   | LPop =>
       match out_packet c with
       | [] => Some (set_loop c LWant)                        (* IndexError: _packet_write returns *)
       | p :: q =>
           Some (mkConf (last_mid c) (mid_lock c) q (S (qver c)) (pipe c) (sock c) (nconn c) (wire c) (LSend p)
-                       (pubs c) (timeouts c) (crashed c) (alloc_log c))
+                       (pubs c) (timeouts c) (crashed c) (alloc_log c) (marked c))
       end
   | LSend p =>
       match sock c with
       | Some k =>
           Some (mkConf (last_mid c) (mid_lock c) (out_packet c) (qver c) (pipe c) (sock c) (nconn c)
-                       (wire c ++ [(k, p)]) LPop (pubs c) (timeouts c) (crashed c) (alloc_log c))
+                       (wire c ++ [(k, p)]) LPop (pubs c) (timeouts c) (crashed c) (alloc_log c) (marked c))
       | None =>                                              (* no socket: appendleft, give up *)
           Some (mkConf (last_mid c) (mid_lock c) (p :: out_packet c) (S (qver c)) (pipe c) (sock c) (nconn c)
-                       (wire c) LWant (pubs c) (timeouts c) (crashed c) (alloc_log c))
+                       (wire c) LWant (pubs c) (timeouts c) (crashed c) (alloc_log c) (marked c))
       end
   | RClose =>
       Some (mkConf (last_mid c) (mid_lock c) (out_packet c) (qver c) (pipe c) None (nconn c) (wire c) RIterStart
-                   (pubs c) (timeouts c) (crashed c) (alloc_log c))
-  | RIterStart => Some (set_loop c (RIter (qver c) (length (out_packet c))))
+                   (pubs c) (timeouts c) (crashed c) (alloc_log c) (marked c))
+  | RIterStart =>                                            (* the packets the loop is going to visit and mark *)
+      Some (mkConf (last_mid c) (mid_lock c) (out_packet c) (qver c) (pipe c) (sock c) (nconn c) (wire c)
+                   (RIter (qver c) (length (out_packet c))) (pubs c) (timeouts c) (crashed c) (alloc_log c)
+                   (marked c ++ out_packet c))
   | RIter ver k =>
       if negb (Nat.eqb (qver c) ver) then
         Some (mkConf (last_mid c) (mid_lock c) (out_packet c) (qver c) (pipe c) (sock c) (nconn c) (wire c) LCrashed
-                     (pubs c) (timeouts c) true (alloc_log c))
+                     (pubs c) (timeouts c) true (alloc_log c) (marked c))
       else match k with
            | O => Some (set_loop c RClear)
            | S k' => Some (set_loop c (RIter ver k'))
            end
   | RClear =>
       Some (mkConf (last_mid c) (mid_lock c) [] (S (qver c)) (pipe c) (sock c) (nconn c) (wire c) RSock
-                   (pubs c) (timeouts c) (crashed c) (alloc_log c))
+                   (pubs c) (timeouts c) (crashed c) (alloc_log c) (marked c))
   | RSock =>
       Some (mkConf (last_mid c) (mid_lock c) (out_packet c) (qver c) (pipe c) (Some (nconn c)) (nconn c + 1) (wire c)
-                   RConnect (pubs c) (timeouts c) (crashed c) (alloc_log c))
+                   RConnect (pubs c) (timeouts c) (crashed c) (alloc_log c) (marked c))
   | RConnect =>
       match sock c with
       | Some k =>
           Some (mkConf (last_mid c) (mid_lock c) (out_packet c ++ [Connect k]) (S (qver c)) (pipe c) (sock c) (nconn c)
-                       (wire c) RWake (pubs c) (timeouts c) (crashed c) (alloc_log c))
+                       (wire c) RWake (pubs c) (timeouts c) (crashed c) (alloc_log c) (marked c))
       | None => None
       end
   | RWake =>
       Some (mkConf (last_mid c) (mid_lock c) (out_packet c) (qver c) (S (pipe c)) (sock c) (nconn c) (wire c) LWant
-                   (pubs c) (timeouts c) (crashed c) (alloc_log c))
+                   (pubs c) (timeouts c) (crashed c) (alloc_log c) (marked c))
   | LCrashed => None
   end.
 
@@ -218,7 +222,7 @@ Definition timeout_step (c : conf) : option conf :=
   | LSelect false =>
       if (0 <? pipe c)%nat then None
       else Some (mkConf (last_mid c) (mid_lock c) (out_packet c) (qver c) (pipe c) (sock c) (nconn c) (wire c) LWant
-                        (pubs c) (S (timeouts c)) (crashed c) (alloc_log c))
+                        (pubs c) (S (timeouts c)) (crashed c) (alloc_log c) (marked c))
   | _ => None
   end.
 
@@ -254,7 +258,7 @@ Definition new_pub (n : nat) : pub :=
 
 (* connection 1 established, CONNECT already written, [nmsgs] = messages per publisher *)
 Definition init (m0 : Z) (l0 : lpc) (pipe0 : nat) (nmsgs : list nat) : conf :=
-  mkConf m0 None [] O pipe0 (Some 1) 2 [(1, Connect 1)] l0 (map new_pub nmsgs) O false [].
+  mkConf m0 None [] O pipe0 (Some 1) 2 [(1, Connect 1)] l0 (map new_pub nmsgs) O false [] [].
 
 Definition init_steady (m0 : Z) (nmsgs : list nat) : conf := init m0 LWant O nmsgs.
 Definition init_reconnect (m0 : Z) (nmsgs : list nat) : conf := init m0 RClose O nmsgs.
